@@ -100,6 +100,10 @@ type kit struct {
 	subtract  func(pos, neg solidG) solidG
 	optimize  func(ops []solidG) solidG
 	mux       func(ops []solidG) muxG
+	// staged: a scene assembled in stages from ONE list of parts: the nested joins are the prefix
+	// views list[:cut] (same backing array, same first element, different lengths), put into an
+	// outer join in the given order; returns that outer join plain and optimised
+	staged func(ops []solidG, cuts []int) (plain, optimized solidG)
 	// 3D only (nil in 2D)
 	stackSolids  func(ops []solidG) solidG
 	stackedSolid func(ops []solidG) solidG
